@@ -289,6 +289,11 @@ func (e *Engine) initIntrinsics() {
 			e.opts.MaxAlloc = v
 		case "mincap":
 			e.opts.MinCap = v
+		case "gocap":
+			// 1: append grows capacities exactly as the gc runtime does on amd64 (growslice: doubling below 256 elements,
+			// rounded up to the allocator's size class) instead of the default over-approximation "at least MinCap", so
+			// that a counterexample which depends on spare capacity (aliasing through append) replays natively
+			e.opts.GoCap = v != 0
 		case "feasfrom":
 			e.opts.FeasFrom = v
 		case "native":
